@@ -34,6 +34,34 @@ def run(res, tier, seed):
         runner = corr.Runner(v)
         env = {"OMP_NUM_THREADS": "4"} if v["openmp"] else None
         engine.run_ops(res, "C12", names, seed, n, 260 if tier == "quick" else 500, runner=runner, env=env, tag="/cfg=" + v["name"])
+        # the cache-derived PLE cut-off of this configuration: inputs just large enough to enter the block recursion
+        # (Schur complement, L compression) with rank-deficient column halves - ordinary sizes on a small-cache machine;
+        # two-tier comparison of tools/ops.py (verified checker on the output, exact (A',P,r,Q) at the build's cut-off)
+        if ops.ple_cutoff_words(v) <= 8192:
+            T = ops.Tiers(res, "C12", v)
+            T.tag = "/rec/cfg=" + v["name"]
+            T.run(["ple", "pluq"], seed + 3, 2 if tier == "quick" else 30, 260, rec_bias=0.95)
+            # and, aimed: every (r1 mod 64 == 0 or not) x (r2 >= 128 or not) class of the L-compression word moves
+            import gen, re
+            g = gen.G(seed + 4)
+            want = {(a, b): None for a in (0, 64, 100, -1) for b in (True, False)}      # r1 (-1: n1-1), r2 >= 128
+            ops.REC_BIAS, ops.REC_WORDS = 0.95, ops.ple_cutoff_words(v)
+            try:
+                for _ in range(400):
+                    if all(x is not None for x in want.values()):
+                        break
+                    c = ops.build(g.rng.choice(["ple", "pluq"]), g, None, 260)
+                    m = re.match(r"compress/w\d+/r1=(\d+)/r2=(\d+)", str(c.meta.get("kinds", ("",))[0]))
+                    if m:
+                        r1v = int(m.group(1))
+                        key = (r1v if r1v in (0, 64, 100) else -1, int(m.group(2)) >= 128)
+                        if want[key] is None:
+                            want[key] = c
+            finally:
+                ops.REC_BIAS = 0.0
+            aimed = [c for c in want.values() if c is not None]
+            if aimed:
+                T.run(None, seed + 5, 0, 260, cases=aimed)
 
 
 def replay(res, path):
